@@ -11,6 +11,9 @@ package main
 import (
 	"encoding/json"
 	"fmt"
+	"os"
+	"os/exec"
+	"path/filepath"
 	"runtime"
 	"sort"
 	"strconv"
@@ -22,7 +25,7 @@ import (
 	"github.com/hneemann/parser2/value"
 )
 
-func init() { register("c08", cmdC08) }
+func init() { register("c08", cmdC08); register("c08child", cmdC08Child) }
 
 const c08Big = 100000000000
 
@@ -73,9 +76,10 @@ type C8Term struct {
 	X    int
 }
 type C8Case struct {
-	Pipe *C8Pipe
-	Term *C8Term
-	Note string `json:",omitempty"`
+	Pipe  *C8Pipe
+	Term  *C8Term
+	Multi *C8Term `json:",omitempty"` // second consumer: PIPE.multiUse({a: l->l.Term, b: l->l.Multi}).a  (Go oracle only)
+	Note  string  `json:",omitempty"`
 }
 
 // ---------- expression text (what the implementation evaluates)
@@ -166,6 +170,8 @@ func (s *C8Stage) Expr() string {
 
 func (p *C8Pipe) Expr() string {
 	switch p.Kind {
+	case "var":
+		return "l"
 	case "numbers":
 		return fmt.Sprintf("numbers(%d)", p.N)
 	case "list":
@@ -183,6 +189,11 @@ func (p *C8Pipe) Expr() string {
 }
 
 func (c *C8Case) Expr() string {
+	if c.Multi != nil {
+		a := (&C8Case{Pipe: &C8Pipe{Kind: "var"}, Term: c.Term}).Expr()
+		b := (&C8Case{Pipe: &C8Pipe{Kind: "var"}, Term: c.Multi}).Expr()
+		return fmt.Sprintf("%s.multiUse({a:l->%s, b:l->%s}).a", c.Pipe.Expr(), a, b)
+	}
 	pe := c.Pipe.Expr()
 	switch c.Term.Kind {
 	case "none":
@@ -306,6 +317,8 @@ type c8Obs struct {
 	Log      []c8Event
 	Parallel bool // some tick ran on another goroutine than the evaluating one: a stage switched to parallel mode
 	Micros   int64
+	Retries  int
+	NumCPU   int
 }
 
 var c8mu sync.Mutex
@@ -774,7 +787,19 @@ func (p *C8Pipe) walk(f func(*C8Pipe)) {
 
 // ---------------------------------------------------------------- one case
 
+type c8Job struct {
+	c         *C8Case
+	need      int
+	want      string
+	needCalls c8Calls
+	exp       string
+	obs       c8Obs
+	have      bool
+	first     string // what happened in the default configuration when the case had to be repeated on one CPU
+}
+
 type c8Run struct {
+	jobs    []*c8Job
 	sum     *Summary
 	cw      *CaseWriter
 	id      int
@@ -783,26 +808,54 @@ type c8Run struct {
 }
 
 func c8Sig(c *C8Case, symptom string) string {
+	if c.Multi != nil {
+		// the read-ahead of the multiUse pass is one element of ITS input: what matters is whether a stage
+		// that drops elements sits between the source and multiUse
+		class := "no dropping stage upstream"
+		c.Pipe.walk(func(p *C8Pipe) {
+			if p.Kind == "stage" && (p.S.Kind == "accept" || p.S.Kind == "compact") {
+				class = "behind a dropping stage (accept/compact)"
+			}
+		})
+		return "multiUse | " + class + " | " + symptom
+	}
 	return c.Term.Kind + " | " + c.Pipe.shape() + " | " + symptom
 }
 
 func (r *c8Run) run(c *C8Case) {
-	if r.aborted {
-		r.sum.Skipped["not-run-after-timeout"]++
-		return
-	}
 	need, want, needCalls, ok := c.oracle()
+	if ok && c.Multi != nil {
+		// both consumers run concurrently over one pass of the source (iterator.CopyProducer): the pass must
+		// cover the larger of the two needs; the value looked at is consumer a's
+		nb, wb, cb, okb := (&C8Case{Pipe: c.Pipe, Term: c.Multi}).oracle()
+		if !okb || want == "error" || wb == "error" {
+			r.sum.Skipped["multiUse-consumer-error-or-undecided"]++
+			return
+		}
+		if nb > need {
+			// closures of the pipeline: the larger prefix; consumer a's own closure keeps its count
+			own := needCalls[c.Term.ID]
+			need, needCalls = nb, cb
+			needCalls[c.Term.ID] = own
+		} else {
+			needCalls[c.Multi.ID] = cb[c.Multi.ID]
+		}
+	}
 	if !ok {
 		// the result needs more than c8Cap source elements: not a short-circuit case, would not terminate on numbers(10^11)
 		r.sum.Skipped["oracle-undecided-within-cap"]++
 		return
 	}
-	exp := c.Expr()
+	r.jobs = append(r.jobs, &c8Job{c: c, need: need, want: want, needCalls: needCalls, exp: c.Expr()})
+}
+
+// c8Observe: one observation of the implementation, preferring the sequential mode
+func c8Observe(exp string, multi bool) c8Obs {
 	var obs c8Obs
 	retries := 0
 	for {
 		obs = c8Eval(exp, 2*time.Second)
-		if !obs.Parallel || retries >= 8 {
+		if !obs.Parallel || retries >= 4 || multi {
 			break
 		}
 		// MapAuto/FilterAuto measured more than 200 us per element (a loaded machine: the closures here take
@@ -811,11 +864,175 @@ func (r *c8Run) run(c *C8Case) {
 		retries++
 		time.Sleep(time.Duration(5*retries) * time.Millisecond)
 	}
-	if retries > 0 {
-		r.sum.Count("parallel_switch_retries", fmt.Sprint(retries))
-	}
+	obs.Retries = retries
 	if obs.Parallel {
 		time.Sleep(20 * time.Millisecond)
+	}
+	if multi {
+		obs.Parallel = false // the consumers of multiUse run on goroutines by design
+	}
+	return obs
+}
+
+// ---- evaluation in child processes: a panic on a library goroutine (possible after a load-induced switch to
+// parallel mode: the stages then share one stack, C05/C06) kills the process and must not kill the check
+
+type c8ChildIn struct {
+	Exprs []string
+	Multi []bool
+}
+type c8ChildOut struct {
+	I   int
+	Obs c8Obs
+}
+
+func cmdC08Child(seed int64, tier, dir string) {
+	bs, err := os.ReadFile(filepath.Join(dir, "child_in.json"))
+	if err != nil {
+		fatal("c08child: %v", err)
+	}
+	var in c8ChildIn
+	if err := json.Unmarshal(bs, &in); err != nil {
+		fatal("c08child: %v", err)
+	}
+	out, err := os.Create(filepath.Join(dir, "child_out.jsonl"))
+	if err != nil {
+		fatal("c08child: %v", err)
+	}
+	for i, e := range in.Exprs {
+		obs := c8Observe(e, in.Multi[i])
+		obs.NumCPU = runtime.NumCPU()
+		line, _ := json.Marshal(c8ChildOut{I: i, Obs: obs})
+		out.Write(append(line, '\n'))
+		if obs.Kind == "timeout" {
+			// the evaluation is still running on its goroutine (and may allocate without bound)
+			out.Close()
+			os.Exit(3)
+		}
+	}
+	out.Close()
+}
+
+// runChildren evaluates the given jobs in child processes (restarted after a crash); pinned: under taskset -c 0,
+// where runtime.NumCPU() == 1 and MapAuto/FilterAuto are plain Map/Filter
+func (r *c8Run) runChildren(jobs []*c8Job, pinned bool, dir string) {
+	self, err := os.Executable()
+	if err != nil {
+		fatal("c08: %v", err)
+	}
+	os.MkdirAll(dir, 0o755)
+	for restarts := 0; len(jobs) > 0 && !r.aborted; restarts++ {
+		in := c8ChildIn{}
+		for _, j := range jobs {
+			in.Exprs = append(in.Exprs, j.exp)
+			in.Multi = append(in.Multi, j.c.Multi != nil)
+		}
+		bs, _ := json.Marshal(in)
+		os.WriteFile(filepath.Join(dir, "child_in.json"), bs, 0o644)
+		os.Remove(filepath.Join(dir, "child_out.jsonl"))
+		args := []string{self, "c08child", "--out", dir}
+		if pinned {
+			args = append([]string{"taskset", "-c", "0"}, args...)
+		}
+		cmd := exec.Command(args[0], args[1:]...)
+		var stderr strings.Builder
+		cmd.Stderr = &stderr
+		cmd.Stdout = &stderr
+		runErr := cmd.Run()
+		done := 0
+		if bs, err := os.ReadFile(filepath.Join(dir, "child_out.jsonl")); err == nil {
+			for _, line := range strings.Split(string(bs), "\n") {
+				var o c8ChildOut
+				if line == "" || json.Unmarshal([]byte(line), &o) != nil || o.I != done || done >= len(jobs) {
+					continue
+				}
+				jobs[done].obs, jobs[done].have = o.Obs, true
+				done++
+				if o.Obs.Kind == "timeout" {
+					r.aborted = true
+				}
+			}
+		}
+		if runErr == nil || r.aborted {
+			if done < len(jobs) && !r.aborted {
+				fatal("c08: child finished without evaluating all cases")
+			}
+			return
+		}
+		// the child died while evaluating jobs[done]
+		if done < len(jobs) {
+			msg := stderr.String()
+			if len(msg) > 600 {
+				msg = msg[:600]
+			}
+			jobs[done].obs, jobs[done].have = c8Obs{Kind: "crash", Err: msg}, true
+			r.sum.Count("child_process_crashes", map[bool]string{true: "pinned", false: "unpinned"}[pinned])
+			done++
+		}
+		jobs = jobs[done:]
+		if restarts > 20 {
+			fatal("c08: child processes keep crashing: %s", stderr.String())
+		}
+	}
+}
+
+func (r *c8Run) evaluate(dir string) {
+	_, tsErr := exec.LookPath("taskset")
+	// 0. multiUse: consumers on goroutines; the hand-over per element makes MapAuto's timing (200 us per element)
+	//    depend on the scheduler, so these cases are observed on one CPU only (NumCPU()==1: plain Map/Filter)
+	var multi, plain []*c8Job
+	for _, j := range r.jobs {
+		if j.c.Multi != nil && tsErr == nil {
+			multi = append(multi, j)
+		} else {
+			plain = append(plain, j)
+		}
+	}
+	// 1. the default configuration: MapAuto/FilterAuto with their timing-based switch
+	r.runChildren(plain, false, filepath.Join(dir, "child"))
+	if len(multi) > 0 && !r.aborted {
+		r.runChildren(multi, true, filepath.Join(dir, "child"))
+		for _, j := range multi {
+			j.first = "multiUse"
+		}
+	}
+	// 2. whatever ran in parallel mode in every attempt, or crashed there, again on one CPU
+	var again []*c8Job
+	for _, j := range plain {
+		if j.have && (j.obs.Parallel || j.obs.Kind == "crash") {
+			j.first = j.obs.Kind
+			if j.obs.Parallel {
+				j.first = "parallel"
+			}
+			again = append(again, j)
+		}
+	}
+	if len(again) > 0 && !r.aborted {
+		if tsErr == nil {
+			r.runChildren(again, true, filepath.Join(dir, "child"))
+		}
+	}
+	for _, j := range r.jobs {
+		if !j.have {
+			r.sum.Skipped["not-run-after-timeout"]++
+			continue
+		}
+		r.judge(j)
+	}
+}
+
+func (r *c8Run) judge(j *c8Job) {
+	c, need, want, needCalls, exp, obs := j.c, j.need, j.want, j.needCalls, j.exp, j.obs
+	if obs.Retries > 0 {
+		r.sum.Count("parallel_switch_retries", fmt.Sprint(obs.Retries))
+	}
+	switch {
+	case j.first == "multiUse":
+		r.sum.Count("evaluated", "multiUse cases: on one CPU (taskset -c 0)")
+	case j.first != "":
+		r.sum.Count("evaluated", "on one CPU (taskset -c 0: Map/Filter instead of MapAuto/FilterAuto) after "+j.first+" in the default configuration")
+	default:
+		r.sum.Count("evaluated", "default configuration (MapAuto/FilterAuto, sequential branch)")
 	}
 	if obs.Kind == "generr" {
 		fatal("C08: expression does not generate: %s: %s", exp, obs.Err)
@@ -844,7 +1061,11 @@ func (r *c8Run) run(c *C8Case) {
 	human := map[string]any{"expression": exp, "observed": obs.Short(), "observed_ticks_per_stage": fmt.Sprint(counts),
 		"oracle_need": need, "oracle_result": want, "repro": c, "note": c.Note}
 	// distribution
-	r.sum.Count("consumer", c.Term.Kind)
+	if c.Multi != nil {
+		r.sum.Count("consumer", "multiUse("+c.Term.Kind+","+c.Multi.Kind+")")
+	} else {
+		r.sum.Count("consumer", c.Term.Kind)
+	}
 	r.sum.Count("source", strings.SplitN(c.Pipe.shape(), ".", 2)[0])
 	r.sum.Count("stages", fmt.Sprint(c.Pipe.stages()))
 	c.Pipe.walk(func(p *C8Pipe) {
@@ -863,6 +1084,8 @@ func (r *c8Run) run(c *C8Case) {
 	// ---- oracle verdicts (property judged in Go on the implementation's own behaviour)
 	symptom, what := "", ""
 	switch {
+	case obs.Kind == "crash":
+		symptom, what = "process-crash", "the process evaluating the expression died: "+obs.Err
 	case obs.Kind == "timeout":
 		symptom, what = "no-prompt-termination", fmt.Sprintf("the call did not return within 2 s (ticks so far: %d, needed prefix %d)", len(obs.Log), need)
 	case c.Term.Kind == "none" && (obs.Kind != "list" || len(obs.Log) > 0):
@@ -905,6 +1128,14 @@ func (r *c8Run) run(c *C8Case) {
 		// the evaluation is still running on its goroutine (and may allocate without bound): stop here
 		r.aborted = true
 		r.sum.Extra["aborted_after_timeout"] = exp
+		return
+	}
+	if obs.Kind == "crash" {
+		return
+	}
+	if c.Multi != nil {
+		// goroutines: the interleaving of ticks is not deterministic, no sequential model; counts and outcome judged above
+		r.sum.Skipped["multiUse-judged-by-go-oracle-only"]++
 		return
 	}
 	if obs.Parallel {
@@ -1160,6 +1391,9 @@ func (c *C8Case) allIds() []int {
 	if c.Term.P1 != nil || c.Term.F2 != nil {
 		ids = append(ids, c.Term.ID)
 	}
+	if c.Multi != nil && (c.Multi.P1 != nil || c.Multi.F2 != nil) {
+		ids = append(ids, c.Multi.ID)
+	}
 	return ids
 }
 
@@ -1292,6 +1526,7 @@ func cmdC08(seed int64, tier, outDir string) {
 	cw.prelude = "Local Open Scope Z_scope.\n"
 	run := &c8Run{sum: sum, cw: cw}
 	finish := func() {
+		run.evaluate(outDir)
 		cw.Flush()
 		sum.CaseFiles = cw.files
 		sum.Extra["max_wall_us_of_one_evaluation"] = run.maxUs
@@ -1315,12 +1550,15 @@ func cmdC08(seed int64, tier, outDir string) {
 	}
 	// systematic sweep: shape x decisive position x failure offset
 	jmax, jstep := 40, 1
-	failEvery := 6 // failure variants for every sixth base case in the quick tier, all in thorough
+	failEvery := 8 // failure variants for every eighth base case in the quick tier, all in thorough
 	if tier == "thorough" {
 		failEvery = 1
 	}
 	for ti, tp := range c8Templates() {
 		for j := 0; j <= jmax; j += jstep {
+			if tier != "thorough" && ti >= 6 && (j+ti)%2 == 1 {
+				continue // quick tier: every position for the six basic shapes, every second one for the others
+			}
 			lazy := tp.build(j)
 			var bases []*C8Case
 			ts := c8Consumers(lazy, j)
@@ -1363,8 +1601,47 @@ func cmdC08(seed int64, tier, outDir string) {
 			}
 		}
 	}
+	// multiUse: two short-circuit consumers over one pass (decisive positions ja, jb), failing element behind the pass
+	for ti, tp := range c8Templates() {
+		if ti%2 == 1 && tier != "thorough" {
+			continue
+		}
+		jaStep := 10
+		if tier == "thorough" {
+			jaStep = 2
+		}
+		for ja := 0; ja <= 40; ja += jaStep {
+			for _, jb := range []int{0, ja / 2, ja + 3} {
+				lazy := tp.build(ja)
+				ta := c8Consumers(lazy, ja)
+				tb := c8Consumers(lazy, jb)
+				if len(ta) == 0 || len(tb) == 0 {
+					continue
+				}
+				a, b := cloneTerm(ta[(ja+ti)%len(ta)]), cloneTerm(tb[(jb+ti+1)%len(tb)])
+				a.ID, b.ID = 20, 21
+				base := &C8Case{Pipe: clonePipe(lazy), Term: a, Multi: b}
+				run.run(base)
+				// the element behind the read-ahead of the pass fails: invisible
+				na, _, _, oka := (&C8Case{Pipe: base.Pipe, Term: a}).oracle()
+				nb, _, _, okb := (&C8Case{Pipe: base.Pipe, Term: b}).oracle()
+				if oka && okb {
+					m := na
+					if nb > m {
+						m = nb
+					}
+					for off := 1; off <= 3; off += 2 {
+						v := &C8Case{Pipe: clonePipe(lazy), Term: cloneTerm(a), Multi: cloneTerm(b), Note: fmt.Sprintf("multiUse: source-side closure fails %d behind the pass", off)}
+						if v.setFail(1, m+off, false) {
+							run.run(v)
+						}
+					}
+				}
+			}
+		}
+	}
 	// random pipelines
-	n := 400
+	n := 300
 	if tier == "thorough" {
 		n = 40000
 	}
